@@ -227,8 +227,12 @@ class KeyedList(Generic[ItemType, KeyType], MutableSequence, KeyedBase):  # pyli
     def _reindex(self):
         # Keep the key index in list order, so that `keys()` and `items()` agree
         # with a scan of the list. (Keys are reused, not computed again.)
+        # (The index is rebuilt in place: `keys()` / `items()` views handed out
+        # earlier keep following the container.)
         keys = {id(item): key for key, item in self._dict.items()}
-        self._dict = {keys[id(item)]: item for item in self._list}
+        ordered = {keys[id(item)]: item for item in self._list}
+        self._dict.clear()
+        self._dict.update(ordered)
 
     def extend(self, values):
         # Validate all incoming items before adding any of them, so that a
